@@ -6,6 +6,7 @@ import (
 	"go/types"
 	"strings"
 
+	"gengoverif/checker/internal/cfgx"
 	"gengoverif/checker/internal/core"
 )
 
@@ -328,7 +329,7 @@ func c08R3(p *core.Program, r *core.Report, pl *pipeline) {
 
 func c08R4(p *core.Program, r *core.Report, pl *pipeline) {
 	const rule = "R4"
-	r.Floor(rule, 3)
+	r.Floor(rule, 4)
 	e := pl.execute
 	info := e.Info()
 	for _, c := range core.CallsTo(info, e.Body, true, core.GM("pkg/sumfile", "*File", "Save")) {
@@ -360,6 +361,57 @@ func c08R4(p *core.Program, r *core.Report, pl *pipeline) {
 			})
 			r.Check(bad == "", rule, e, "only the directory of the loaded file is adopted", c.Pos(), "sumFile.Dir = c.sumFile.Dir is the only modification", "the sums to be saved are modified in Execute: "+bad)
 		}
+	}
+	// Save writes: no path returns without an error before the sorted sums were written
+	// (e.g. "skip the write when the file already parses to the same mapping" leaves a
+	// non-canonical gengo.sum in place after a successful run)
+	if sv := pl.save; sv != nil {
+		sinfo := sv.Info()
+		sg := graph(sv)
+		isWrite := func(q cfgxPoint) bool {
+			if q.Node() == nil {
+				return false
+			}
+			for _, c := range core.Calls(q.Node(), true) {
+				name := core.CalleeName(sinfo, c)
+				if (name == "(*os.File).Write" || name == "(*os.File).WriteString" || name == "os.WriteFile" || name == "io.Copy" || name == "io.WriteString") && !sg.InLit(c) {
+					for _, a := range c.Args {
+						for _, bc := range core.Calls(a, true) {
+							if core.CalleeName(sinfo, bc) == core.GM("pkg/sumfile", "*File", "Bytes") {
+								return true
+							}
+						}
+						if e, _ := core.Resolve(sinfo, sv.Body, a); e != nil {
+							if bc, ok := ast.Unparen(e).(*ast.CallExpr); ok && core.CalleeName(sinfo, bc) == core.GM("pkg/sumfile", "*File", "Bytes") {
+								return true
+							}
+						}
+					}
+				}
+			}
+			return false
+		}
+		_, skips := sg.Reach(sg.Entry(), true, cfgx.Query{
+			Target: func(q cfgxPoint) bool {
+				ret, ok := q.Node().(*ast.ReturnStmt)
+				if !ok {
+					return false
+				}
+				// a return under `err != nil` reports a failure
+				for _, fct := range sg.FactsAt(q) {
+					if b, ok := ast.Unparen(fct.Cond).(*ast.BinaryExpr); ok && fct.Tag == nil {
+						if id, ok := ast.Unparen(b.Y).(*ast.Ident); ok && id.Name == "nil" && isErrorType(sinfo.TypeOf(b.X)) && ((b.Op == token.NEQ && fct.Val) || (b.Op == token.EQL && !fct.Val)) {
+							return false
+						}
+					}
+				}
+				_ = ret
+				return true
+			},
+			Cut: isWrite,
+		})
+		r.Check(!skips, rule, sv, "Save writes the sums on every path that does not report an error", sv.Node().Pos(), "every non-error return is preceded by Write(f.Bytes())",
+			"Save can return without an error and without writing: after a successful run gengo.sum is not (re)written in its canonical form")
 	}
 	// same file name constant in Load and Save
 	names := map[string]bool{}
